@@ -134,6 +134,11 @@ def check_trace(trace, S, M):
             tr2 = impl.make_transitions(trace, S, events=tr.events.sort_values(['time', 'atom index'], kind='stable', ignore_index=True))
             if sorted(real_jumps(tr2, M[0])) != sorted(real_jumps(tr, M[0])):
                 viols.append(('jumps-depend-on-the-order-of-the-event-rows', f'm={M[0]}'))
+            ev3 = tr.events.copy()
+            ev3.index = ev3['time'].to_numpy()  # row labels repeat across atoms (e.g. per-atom tables concatenated)
+            tr3 = impl.make_transitions(trace, S, events=ev3)
+            if sorted(real_jumps(tr3, M[0])) != sorted(real_jumps(tr, M[0])):
+                viols.append(('jumps-depend-on-the-row-labels-of-the-event-table', f'm={M[0]}'))
         except Exception as e:  # noqa: BLE001
             viols.append((f'jumps-reordered-events-raise-{type(e).__name__}', str(e)))
     return viols, tuple(keys)
